@@ -372,16 +372,16 @@ def judge_stream(run, name, imports, casetype, inputs, results, term_fn, clauses
     knownkeys = {k["key"] for k in known_findings()["known"] if k["property"] == run.pid}
     kept = []
     for idx, sev, cl in viol:
-        k = (vkey(inputs[idx], results[idx], cl) if vkey else None) or "%s-clause-%d" % (name, cl)
+        k = (vkey(inputs[idx], results[idx], cl) if vkey else None) or "%s-clause-%d" % (name, cl % 100 if cl >= 100 else cl)
         if k not in knownkeys:
             kept.append((idx, sev, cl))
         if len(kept) > 20 and k not in knownkeys:
             continue
-        run.violation(k, clauses.get(cl, "clause %d" % cl),
+        run.violation(k, clauses.get(cl, clauses.get(cl % 100, "clause %d" % cl) + (" (at operation %d)" % (cl // 100 - 1) if cl >= 100 else "")),
                       {"stream": name, "input": _short(inputs[idx], 6000), "impl": _short(results[idx], 6000), "clause": cl})
     run.oblige("correspondence %s: model = implementation and monitor holds on %d cases (listed known findings excepted)" % (name, len(inputs)),
                not mism and not kept and not errors,
-               json.dumps([{"clause": clauses.get(c, c), "input": _short(inputs[i], 1500), "impl": _short(results[i], 1500)}
+               json.dumps([{"clause": clauses.get(c, clauses.get(c % 100, str(c)) + (" (at operation %d)" % (c // 100 - 1) if c >= 100 else "")), "input": _short(inputs[i], 1500), "impl": _short(results[i], 1500)}
                            for i, s, c in (kept + mism)[:5]], default=str)[:8000])
     seen, nontriv, dist = set(), 0, {}
     for i, t in zip(inputs, tags):
@@ -435,3 +435,45 @@ def coq_query(rundir, name, imports, exprs, timeout=600):
             raise Infra("coq_query: cannot parse answer %d: %s" % (k, o[-500:]))
         res.append([bytes.fromhex(h) for h in re.findall(r'"([0-9a-f]*)"', m.group(1))])
     return res
+
+
+# ------------------------------------------------ overlay test harnesses ----
+
+def build_overlay_test(rundir, pkg, go="go1.26", tags="verif"):
+    """Compile /repo/<pkg>'s test binary with the harness *_test.go files of
+    /verif/harness/overlay/<basename pkg>/ injected through -overlay."""
+    rundir = os.path.abspath(rundir)
+    src = os.path.join(VERIF, "harness", "overlay", os.path.basename(pkg))
+    repl = {os.path.join(REPO, pkg, f): os.path.join(src, f) for f in sorted(os.listdir(src)) if f.endswith(".go")}
+    ov = os.path.join(rundir, "overlay_%s.json" % os.path.basename(pkg))
+    json.dump({"Replace": repl}, open(ov, "w"))
+    binp = os.path.join(rundir, os.path.basename(pkg) + ".test")
+    rc, o, e = sh([go, "test", "-c", "-vet=off", "-overlay", ov, "-tags", tags, "-o", binp, "./" + pkg],
+                  cwd=REPO, env=GOENV, timeout=900)
+    return rc == 0, binp, (o + e).decode(errors="replace")
+
+
+def run_overlay_test(binp, test, cases, rundir, timeout=900, env=None, tag="cases"):
+    inf = os.path.join(rundir, tag + ".in.jsonl")
+    outf = os.path.join(rundir, tag + ".out.jsonl")
+    with open(inf, "w") as f:
+        for c in cases:
+            f.write(json.dumps(c) + "\n")
+    e = dict(env or os.environ, VERIF_CASES=inf, VERIF_OUT=outf)
+    try:
+        rc, o, err = sh([binp, "-test.run", "^%s$" % test, "-test.count=1", "-test.timeout", "%ds" % timeout], env=e, timeout=timeout + 30,
+                        cwd=rundir)
+    except subprocess.TimeoutExpired:
+        return None, "harness timeout"
+    res = []
+    if os.path.exists(outf):
+        for line in open(outf):
+            line = line.strip()
+            if line:
+                try:
+                    res.append(json.loads(line))
+                except ValueError:
+                    pass
+    if rc != 0:
+        return res, "harness rc=%d: %s" % (rc, (o + err).decode(errors="replace")[-3000:])
+    return res, None
